@@ -232,7 +232,7 @@ func (w *World) enabled() []Event {
 			}
 			continue
 		}
-		if f := s.Fault; f != nil && op.Inst == f.Inst && !op.Applied && w.opCount[f.Inst+".hb.Update"] >= f.FromN && (op.Label != "hb" || op.Kind != "Update" || opSeq(op) >= f.FromN) {
+		if f := s.Fault; f != nil && op.Inst == f.Inst && !op.Applied && w.opCount[f.Inst+".hb.Update"] >= f.FromN && (op.Label != "hb" || op.Kind != "Update" || opSeq(op) >= f.FromN) && (!f.WritesOnly || op.Kind != "Get") && (!f.Once || (op.Label == "hb" && op.Kind == "Update" && opSeq(op) == f.FromN)) {
 			op.Deadline = 0
 			lateFirst := f.Mode == "lateack" && op.Label == "hb" && op.Kind == "Update" && opSeq(op) == f.FromN
 			switch {
